@@ -178,3 +178,1256 @@ TWINS += [
     {"name": "q-converted-from-the-match-object", "edits": [(H, "            if _q_value_re.fullmatch(q_str) is None:\n                # ignore an invalid q\n                continue\n\n            q = float(q_str)\n", "            q_match = _q_value_re.fullmatch(q_str)\n\n            if not q_match:\n                # ignore an invalid q\n                continue\n\n            q = float(q_match.group())\n")]},
     {"name": "options-iterated-by-key", "edits": [(H, "    for key, value in options.items():\n        if value is None:\n            continue\n\n        if key[-1] == \"*\":", "    for key in options:\n        value = options[key]\n\n        if value is None:\n            continue\n\n        if key[-1] == \"*\":")]},
 ]
+
+
+# ---------------------------------------------------------------------
+# round 2: further spellings of every premise (each one a behaviour-preserving rewrite, confirmed by a differential run
+# against the unchanged tree while the checker was developed) and, for every new shape that is accepted, the same shape
+# with the premise broken.  The groups are evaluated in order; constants may be redefined from one group to the next.
+
+
+def V(name, *edits, expect=None):
+    return {"name": name, "expect": expect, "edits": list(edits)}
+
+
+_SKIP = {"age-isdigit", "M:range-sentinel-negative-start"}
+
+
+def _split(variants):
+    for v in variants:
+        if v["name"] in _SKIP:
+            continue
+        if v["expect"] is None:
+            TWINS.append({"name": v["name"], "edits": v["edits"]})
+        else:
+            MUTANTS.append({"name": v["name"].removeprefix("M:"), "expect": v["expect"], "edits": v["edits"]})
+
+
+# -- the range premise: every place that puts a pair into the list handed to Range
+R = "datastructures/range.py"
+DEF = "def parse_range_header(\n"
+RET = "    return ds.Range(units, ranges)\n"
+
+def body(new, *more, name, expect=None):
+    return {"name": name, "expect": expect, "edits": [(H, RANGE_OLD, new), *more]}
+
+HELPER_ITEM = '''def _range_item(item: str) -> tuple[int, int | None] | None:
+    if item.startswith("-"):
+        try:
+            return _plain_int(item), None
+        except ValueError:
+            return None
+
+    begin_str, _, end_str = item.partition("-")
+
+    try:
+        begin = _plain_int(begin_str)
+        end = _plain_int(end_str) + 1 if end_str.strip() else None
+    except ValueError:
+        return None
+
+    if end is not None and begin >= end:
+        return None
+
+    return begin, end
+
+
+'''
+LOOP_ITEM = '''        if "-" not in item:
+            return None
+        if last_end < 0:
+            return None
+        parsed = _range_item(item)
+        if parsed is None:
+            return None
+        begin, end = parsed
+        if not item.startswith("-") and begin < last_end:
+            return None
+        last_end = -1 if end is None else end
+        ranges.append(parsed)
+'''
+INT_OR_NONE = '''def _int_or_none(text: str) -> int | None:
+    try:
+        return _plain_int(text)
+    except ValueError:
+        return None
+
+
+'''
+LOOP_OPT = '''        if "-" not in item:
+            return None
+        if item.startswith("-"):
+            if last_end < 0:
+                return None
+            begin = _int_or_none(item)
+            if begin is None:
+                return None
+            end = None
+            last_end = -1
+        else:
+            begin_str, end_str = item.split("-", 1)
+            begin = _int_or_none(begin_str)
+            if begin is None or begin < last_end or last_end < 0:
+                return None
+            end = None
+            if end_str.strip():
+                stop = _int_or_none(end_str)
+                if stop is None or begin > stop:
+                    return None
+                end = stop + 1
+            last_end = end if end is not None else -1
+        pair = (begin, end)
+        ranges += [pair]
+'''
+LOOP_FLAG = RANGE_OLD.replace('''            if begin < last_end or last_end < 0:
+                return None
+''', '''            out_of_order = begin < last_end or last_end < 0
+            if out_of_order:
+                return None
+''').replace("        ranges.append((begin, end))\n", "        ranges = [*ranges, (begin, end)]\n")
+LOOP_WALRUS = '''        if "-" not in item:
+            return None
+        if item.startswith("-"):
+            if last_end < 0 or (begin := _int_or_none(item)) is None:
+                return None
+            ranges.extend([(begin, None)])
+            last_end = -1
+            continue
+        begin_str, end_str = item.split("-", 1)
+        if (begin := _int_or_none(begin_str)) is None:
+            return None
+        if not 0 <= last_end <= begin:
+            return None
+        if not end_str.strip():
+            ranges.insert(len(ranges), (begin, None))
+            last_end = -1
+            continue
+        if (stop := _int_or_none(end_str)) is None or stop < begin:
+            return None
+        last_end = stop + 1
+        ranges.append((begin, last_end))
+'''
+ADD_HELPER = '''def _add_range(acc: list[tuple[int, int | None]], begin: int, end: int | None) -> None:
+    acc.append((begin, end))
+
+
+'''
+LOOP_ADD = RANGE_OLD.replace("        ranges.append((begin, end))\n", "        _add_range(ranges, begin, end)\n")
+LOOP_ADD_UNGUARDED = LOOP_ADD.replace("                if begin >= end:\n                    return None\n", "")
+
+CT_OLD = '''        for start, end in ranges:
+            if start is None or (end is not None and (start < 0 or start >= end)):
+                raise ValueError(f"{(start, end)} is not a valid range.")
+'''
+CT_SPLIT = '''        for rng in ranges:
+            start, end = rng
+            if start is None:
+                raise ValueError(f"{rng} has no start.")
+            if end is None:
+                continue
+            if not 0 <= start < end:
+                raise ValueError(f"{rng} is not a valid range.")
+'''
+CT_HELPER_DEF = '''def _check_range(start: int | None, end: int | None) -> None:
+    if start is None or (end is not None and (start < 0 or start >= end)):
+        raise ValueError(f"{(start, end)} is not a valid range.")
+
+
+class Range:
+'''
+CT_HELPER = '''        for i, (start, end) in enumerate(ranges):
+            _check_range(start, end)
+'''
+CT_STRICTER = CT_OLD.replace("start >= end", "start + 1 >= end")
+
+VARIANTS = [
+    body(LOOP_ITEM, (H, DEF, HELPER_ITEM + DEF), name="range-item-helper-returns-pair"),
+    body(LOOP_ITEM.replace("        if not item.startswith(\"-\") and begin < last_end:\n            return None\n", ""), (H, DEF, HELPER_ITEM + DEF), name="M:range-item-helper-caller-floor-dropped", expect="R7.1"),
+    body(LOOP_ITEM, (H, DEF, HELPER_ITEM.replace("begin >= end", "begin > end") + DEF), name="M:range-item-helper-off-by-one", expect="R7.1"),
+    body(LOOP_OPT, (H, DEF, INT_OR_NONE + DEF), name="range-int-or-none-stop-based-named-pair-iadd"),
+    body(LOOP_OPT.replace("begin > stop", "begin > stop + 1"), (H, DEF, INT_OR_NONE + DEF), name="M:range-stop-based-off-by-one", expect="R7.1"),
+    body(LOOP_OPT.replace("            begin = _int_or_none(item)\n            if begin is None:\n                return None\n", "            begin = _int_or_none(item)\n"), (H, DEF, INT_OR_NONE + DEF), name="M:range-int-or-none-unchecked", expect="R7.1"),
+    body(LOOP_FLAG, name="range-order-flag-list-rebuilt"),
+    body(LOOP_FLAG.replace("            if out_of_order:\n                return None\n", ""), name="M:range-order-flag-ignored", expect="R7.1"),
+    body(LOOP_WALRUS, (H, DEF, INT_OR_NONE + DEF), name="range-walrus-chained-extend-insert"),
+    body(LOOP_WALRUS.replace("stop < begin", "stop + 1 < begin"), (H, DEF, INT_OR_NONE + DEF), name="M:range-walrus-off-by-one", expect="R7.1"),
+    body(LOOP_WALRUS.replace("        if not 0 <= last_end <= begin:\n            return None\n", "        if not last_end <= begin:\n            return None\n"), (H, DEF, INT_OR_NONE + DEF), name="M:range-walrus-floor-dropped", expect="R7.1"),
+    body(LOOP_ADD, (H, DEF, ADD_HELPER + DEF), name="range-append-in-helper"),
+    body(LOOP_ADD_UNGUARDED, (H, DEF, ADD_HELPER + DEF), name="M:range-append-in-helper-unguarded", expect="R7.1"),
+    {"name": "range-ctor-kw-copy-local", "expect": None, "edits": [(H, RET, "    rv = ds.Range(ranges=list(ranges), units=units)\n    return rv\n")]},
+    {"name": "range-ctor-split-two-raises", "expect": None, "edits": [(R, CT_OLD, CT_SPLIT)]},
+    {"name": "M:range-ctor-split-stricter", "expect": "R7.1", "edits": [(R, CT_OLD, CT_SPLIT.replace("0 <= start < end", "0 < start < end"))]},
+    {"name": "range-ctor-check-helper-enumerate", "expect": None, "edits": [(R, CT_OLD, CT_HELPER), (R, "class Range:\n", CT_HELPER_DEF)]},
+    {"name": "M:range-ctor-stricter", "expect": "R7.1", "edits": [(R, CT_OLD, CT_STRICTER)]},
+    {"name": "range-ctor-split+item-helper", "expect": None, "edits": [(R, CT_OLD, CT_SPLIT), (H, RANGE_OLD, LOOP_ITEM), (H, DEF, HELPER_ITEM + DEF)]},
+]
+
+LOOP_MAX = RANGE_OLD.replace('''            if begin < last_end or last_end < 0:
+                return None
+''', '''            if last_end < 0 or begin < max(last_end, 0):
+                return None
+''').replace('''                if begin >= end:
+                    return None
+''', '''                if not begin + 1 <= end:
+                    return None
+''')
+LOOP_WHILE_OLD_HEAD = '    for item in rng.split(","):\n        item = item.strip()\n'
+LOOP_WHILE_NEW_HEAD = '    items = rng.split(",")\n    index = 0\n\n    while index < len(items):\n        item = items[index].strip()\n        index += 1\n'
+LOOP_INLINE_INT = RANGE_OLD.replace('''            try:
+                begin = _plain_int(begin_str)
+            except ValueError:
+                return None
+''', '''            if _plain_int_re.fullmatch(begin_str) is None:
+                return None
+
+            begin = int(begin_str)
+''')
+VARIANTS += [
+    body(LOOP_MAX, name="range-floor-through-max-plus-one"),
+    body(LOOP_MAX.replace("begin + 1 <= end", "begin <= end"), name="M:range-max-off-by-one", expect="R7.1"),
+    {"name": "range-while-loop-over-items", "expect": None, "edits": [(H, LOOP_WHILE_OLD_HEAD, LOOP_WHILE_NEW_HEAD)]},
+    {"name": "M:range-while-loop-off-by-one", "expect": "R7.1", "edits": [(H, LOOP_WHILE_OLD_HEAD, LOOP_WHILE_NEW_HEAD), (H, "                if begin >= end:\n                    return None", "                if begin > end:\n                    return None")]},
+]
+
+SENTINEL_HEAD_OLD = "    last_end = 0\n    units, rng = value.split(\"=\", 1)\n"
+SENTINEL_HEAD_NEW = "    last_end: int | None = 0\n    units, rng = value.split(\"=\", 1)\n"
+LOOP_SENTINEL = '''        if "-" not in item:
+            return None
+        if last_end is None:
+            # an open-ended or suffix range must be the last one
+            return None
+        if item.startswith("-"):
+            try:
+                begin = _plain_int(item)
+            except ValueError:
+                return None
+            end = None
+        else:
+            begin_str, end_str = item.split("-", 1)
+            try:
+                begin = _plain_int(begin_str)
+            except ValueError:
+                return None
+            if begin < last_end:
+                return None
+            end = None
+            if end_str.strip():
+                try:
+                    end = _plain_int(end_str) + 1
+                except ValueError:
+                    return None
+                if begin >= end:
+                    return None
+        last_end = end
+        ranges.append((begin, end))
+'''
+VARIANTS += [
+    body(LOOP_SENTINEL, (H, SENTINEL_HEAD_OLD, SENTINEL_HEAD_NEW), name="range-last-end-none-sentinel"),
+    body(LOOP_SENTINEL.replace("                if begin >= end:\n                    return None\n", ""), (H, SENTINEL_HEAD_OLD, SENTINEL_HEAD_NEW), name="M:range-sentinel-unordered", expect="R7.1"),
+    body(LOOP_SENTINEL, (H, SENTINEL_HEAD_OLD, SENTINEL_HEAD_NEW.replace("= 0", "= -5")), name="M:range-sentinel-negative-start", expect="R7.1"),
+]
+_split(VARIANTS)
+
+# -- value premises: Accept pairs / fallback search / application's value / q / octal escapes / ASCII bytes / guards of index and unpack sites
+H = "http.py"; AC = "datastructures/accept.py"; S = "sansio/http.py"; U = "urls.py"; SU = "sansio/utils.py"; RG = "datastructures/range.py"; WR = "wrappers/request.py"; FS = "datastructures/file_storage.py"; I = "_internal.py"
+
+BEST_OLD = "        if self:\n            return self[0][0]\n\n        return None\n"
+PRIM_DEF = 'def _primary_tag(tag: str) -> str:\n    return _locale_delim_re.split(tag, 1)[0]\n\n\nclass LanguageAccept(Accept):\n'
+FB_OLD = '''        fallback_matches = [_locale_delim_re.split(item, 1)[0] for item in matches]
+        result = super().best_match(fallback_matches)
+
+        # Return a value from the original match list. Find the first
+        # original value that starts with the matched primary tag.
+        if result is not None:
+            return next(
+                item
+                for item in matches
+                if _locale_delim_re.split(item, 1)[0] == result
+            )
+'''
+FB_HELPER = '''        fallback_matches = [_primary_tag(offer) for offer in matches]
+        primary = super().best_match(fallback_matches)
+
+        if primary is None:
+            return default
+
+        return next(offer for offer in matches if primary == _primary_tag(offer))
+'''
+FB_APPEND = '''        fallback_matches = []
+
+        for offer in matches:
+            fallback_matches.append(_locale_delim_re.split(offer, 1)[0])
+
+        result = super().best_match(fallback_matches)
+
+        if result is not None:
+            return next(
+                item
+                for item in matches
+                if _locale_delim_re.split(item, 1)[0] == result
+            )
+'''
+FB_INLINE = '''        result = super().best_match(
+            _locale_delim_re.split(item, 1)[0] for item in matches
+        )
+
+        if result is not None:
+            return next(
+                item
+                for item in matches
+                if _locale_delim_re.split(item, 1)[0] == result
+            )
+'''
+FB_LIST_GEN = FB_OLD.replace("[_locale_delim_re.split(item, 1)[0] for item in matches]", "list(_locale_delim_re.split(item, 1)[0] for item in matches)")
+FB_MAP = FB_HELPER.replace("[_primary_tag(offer) for offer in matches]", "list(map(_primary_tag, matches))")
+FB_WRONG_KEY = FB_HELPER.replace("[_primary_tag(offer) for offer in matches]", "[offer.lower() for offer in matches]")
+FB_NO_TEST = FB_HELPER.replace("        if primary is None:\n            return default\n\n", "")
+FALLBACK_PAIRS_OLD = "            [(_locale_delim_re.split(item[0], 1)[0], item[1]) for item in self]\n"
+
+VM_OLD = '''        # value comes from the application, tell the developer when it
+        # doesn't look valid.
+        if "/" not in value:
+            raise ValueError(f"invalid mimetype {value!r}")
+
+        # Split the match value into type, subtype, and a sorted list of parameters.
+        normalized_value = _normalize_mime(value)
+        value_type, value_subtype = normalized_value[:2]
+        value_params = sorted(normalized_value[2:])
+
+        # "*/*" is the only valid value that can start with "*".
+        if value_type == "*" and value_subtype != "*":
+            raise ValueError(f"invalid mimetype {value!r}")
+'''
+VM_HELPER_DEF = '''def _split_offer(value: str) -> tuple[str, str, list[str]]:
+    """Split an application-provided mimetype, telling the developer when it is invalid."""
+    if "/" not in value:
+        raise ValueError(f"invalid mimetype {value!r}")
+
+    pieces = _normalize_mime(value)
+    kind, subkind = pieces[:2]
+
+    if kind == "*" and subkind != "*":
+        raise ValueError(f"invalid mimetype {value!r}")
+
+    return kind, subkind, sorted(pieces[2:])
+
+
+class MIMEAccept(Accept):
+'''
+VM_HELPER_USE = "        value_type, value_subtype, value_params = _split_offer(value)\n"
+VM_FLIP = VM_OLD.replace('''        if "/" not in value:
+            raise ValueError(f"invalid mimetype {value!r}")
+''', '''        offer_ok = "/" in value
+
+        if not offer_ok:
+            raise ValueError(f"invalid mimetype {value!r}")
+''')
+
+Q_OLD = '''            if _q_value_re.fullmatch(q_str) is None:
+                # ignore an invalid q
+                continue
+
+            q = float(q_str)
+
+            if q < 0 or q > 1:
+                # ignore an invalid q
+                continue
+'''
+Q_NESTED = '''            if _q_value_re.fullmatch(q_str):
+                q = float(q_str)
+            else:
+                continue
+
+            if not 0 <= q <= 1:
+                # ignore an invalid q
+                continue
+'''
+Q_HELPER_DEF = '''def _parse_q(text: str) -> float | None:
+    if not _q_value_re.fullmatch(text):
+        return None
+
+    number = float(text)
+    return number if 0 <= number <= 1 else None
+
+
+'''
+Q_HELPER_USE = '''            parsed_q = _parse_q(q_str)
+
+            if parsed_q is None:
+                # ignore an invalid q
+                continue
+
+            q = parsed_q
+'''
+Q_WALRUS = '''            if (q_match := _q_value_re.fullmatch(q_str)) is None:
+                continue
+
+            q = float(q_match[0])
+
+            if q < 0 or q > 1:
+                continue
+'''
+Q_MATCH_PREFIX = Q_OLD.replace("_q_value_re.fullmatch(q_str)", "_q_value_re.match(q_str)")
+
+UNSLASH_OLD = '    v = m.group(1)\n\n    if len(v) == 1:\n        return v\n\n    return int(v, 8).to_bytes(1, "big")\n'
+UNSLASH_BYTES = '    escaped = m[1]\n    return escaped if len(escaped) < 2 else bytes([int(escaped, 8)])\n'
+UNSLASH_GROUPS = '    (v,) = m.groups()\n\n    if len(v) != 3:\n        return v\n\n    return int(v, 8).to_bytes(1, "big")\n'
+UNSLASH_LEN3 = '    v = m.group(1)\n\n    if len(v) == 3:\n        return int(v, 8).to_bytes(1, "big")\n\n    return v\n'
+
+IDNA_OLD = '''    for part in data.split(b"."):
+        try:
+            parts.append(part.decode("idna"))
+        except UnicodeError:
+            parts.append(part.decode("ascii"))
+
+    return ".".join(parts)
+'''
+IDNA_COMP_DEF = '''def _decode_label(label: bytes) -> str:
+    try:
+        return label.decode("idna")
+    except UnicodeError:
+        return str(label, "ascii")
+
+
+def _decode_idna(domain: str) -> str:
+'''
+IDNA_COMP = '    return ".".join(_decode_label(label) for label in data.split(b"."))\n'
+IDNA_COMP2_DEF = IDNA_COMP_DEF.replace('str(label, "ascii")', 'label.decode("ascii")')
+IDNA_OLD_FULL_HEAD = '''    try:
+        data = domain.encode("ascii")
+    except UnicodeEncodeError:
+        # If the domain is not ASCII, it's decoded already.
+        return domain
+'''
+IDNA_ISASCII = '''    if not domain.isascii():
+        # If the domain is not ASCII, it's decoded already.
+        return domain
+
+    data = domain.encode()
+'''
+
+COOKIE_L1_OLD = '''    if cookie:
+        cookie = cookie.encode("latin1").decode(errors="replace")
+
+    return _sansio_http.parse_cookie(cookie=cookie, cls=cls)
+'''
+COOKIE_L1_HELPER_DEF = '''def _redecode_cookie(raw: str) -> str:
+    return raw.encode("latin1").decode(errors="replace")
+
+
+def parse_cookie(
+    header: WSGIEnvironment | str | None,
+'''
+COOKIE_L1_HELPER = '''    text = _redecode_cookie(cookie) if cookie else cookie
+    return _sansio_http.parse_cookie(cookie=text, cls=cls)
+'''
+COOKIE_L1_BYTES = '''    if cookie:
+        raw = bytes(cookie, "latin1")
+        cookie = raw.decode(errors="replace")
+
+    return _sansio_http.parse_cookie(cookie=cookie, cls=cls)
+'''
+
+HOST_OLD = '''        if ":" in host and host[0] != "[":
+            host = f"[{host}]"
+'''
+HOST_STARTS = '''        if ":" in host and not host.startswith("["):
+            host = f"[{host}]"
+'''
+HOST_UNPACK_OLD = '''        host = server[0]
+
+        # If SERVER_NAME is IPv6, wrap it in [] to match Host header.
+        # Check for : because domain or IPv4 can't have that.
+        if ":" in host and host[0] != "[":
+            host = f"[{host}]"
+
+        if server[1] is not None:
+            host = f"{host}:{server[1]}"
+'''
+HOST_UNPACK = '''        name, port = server
+        host = name
+
+        # If SERVER_NAME is IPv6, wrap it in [] to match Host header.
+        # Check for : because domain or IPv4 can't have that.
+        if ":" in name and name[:1] != "[":
+            host = f"[{name}]"
+
+        if port is not None:
+            host = f"{host}:{port}"
+'''
+HOST_EMPTY_UNGUARDED = HOST_OLD.replace('if ":" in host and host[0] != "["', 'if host[0] != "[" and ":" in host')
+
+LIST_OLD = '''        if len(item) >= 2 and item[0] == item[-1] == '"':
+            item = item[1:-1]
+'''
+LIST_V1 = '''        if len(item) > 1 and item.startswith('"') and item.endswith('"'):
+            item = item[1:-1]
+'''
+LIST_V2 = '''        quoted = len(item) >= 2 and item[0] == '"' == item[-1]
+
+        if quoted:
+            item = item[1:-1]
+'''
+LIST_V3 = '''        if len(item) < 2:
+            result.append(item)
+            continue
+
+        first, last = item[0], item[-1]
+
+        if first == last == '"':
+            item = item[1:-1]
+'''
+LIST_V4_DEF = '''def _strip_quotes(text: str) -> str:
+    if len(text) >= 2 and text[0] == text[-1] == '"':
+        return text[1:-1]
+
+    return text
+
+
+def parse_list_header(value: str) -> list[str]:
+'''
+LIST_V4 = "        item = _strip_quotes(item)\n"
+LIST_BAD = LIST_OLD.replace("len(item) >= 2 and ", "")
+
+OPT_PV_OLD = '''        if pv[0] == pv[-1] == '"':
+'''
+OPT_PV_V1 = '''        if pv[:1] == '"' == pv[-1:]:
+'''
+OPT_PV_V2 = '''        if pv.startswith('"') and pv.endswith('"'):
+'''
+OPT_PK_OLD = '''    for pk, pv in parts:
+        if pk[-1] == "*":
+'''
+OPT_PK_V1 = '''    for pk, pv in parts:
+        if pk.endswith("*"):
+'''
+OPT_PK_V2 = '''    for index in range(len(parts)):
+        pk, pv = parts[index]
+
+        if pk[-1] == "*":
+'''
+OPT_PK_V3 = '''    for pk, pv in parts:
+        extended = pk[-1:] == "*"
+
+        if extended:
+'''
+
+CR_OLD = '''    if "/" not in rangedef:
+        return None
+    rng, length_str = rangedef.split("/", 1)
+'''
+CR_V1 = '''    rng, slash, length_str = rangedef.partition("/")
+    if not slash:
+        return None
+'''
+CR_V2 = '''    if rangedef.find("/") < 0:
+        return None
+    rng, length_str = rangedef.split("/", 1)
+'''
+CR_V3 = '''    pieces = rangedef.split("/", 1)
+    if len(pieces) != 2:
+        return None
+    rng, length_str = pieces
+'''
+CR_V4 = '''    try:
+        rng, length_str = rangedef.split("/", 1)
+    except ValueError:
+        return None
+'''
+CR_V5 = '''    if rangedef.count("/") == 0:
+        return None
+    rng, length_str = rangedef.split("/", 1)
+'''
+CR_BAD = '''    rng, length_str = rangedef.split("/", 1)
+'''
+CRC_OLD = '''    if is_byte_range_valid(start, stop, length):
+        return ds.ContentRange(units, start, stop, length, on_update=on_update)
+
+    return None
+'''
+CRC_V1 = '''    if not is_byte_range_valid(start, stop, length):
+        return None
+
+    return ds.ContentRange(units, start, stop, length, on_update=on_update)
+'''
+CRC_V2 = '''    valid = is_byte_range_valid(start, stop, length)
+    return ds.ContentRange(units, start, stop, length, on_update=on_update) if valid else None
+'''
+CRC_V3 = '''    rv = None
+
+    if is_byte_range_valid(start, stop, length):
+        rv = ds.ContentRange(units, start, stop, length, on_update=on_update)
+
+    return rv
+'''
+CRC_BAD = '''    return ds.ContentRange(units, start, stop, length, on_update=on_update)
+'''
+
+ETAG_OLD = '''        if match is None:
+            break
+        is_weak, quoted, raw = match.groups()
+'''
+ETAG_V1 = '''        if not match:
+            break
+        is_weak, quoted, raw = match.group(1, 2, 3)
+'''
+
+FS_OLD = '''            if filename and filename[0] == "<" and filename[-1] == ">":
+                filename = None
+'''
+FS_V1 = '''            if filename is not None and len(filename) > 0:
+                if filename[0] == "<" and filename[-1] == ">":
+                    filename = None
+'''
+FS_V2 = '''            if filename and filename.startswith("<") and filename.endswith(">"):
+                filename = None
+'''
+
+DH_OLD = '''        if len(value) >= 2 and value[0] == value[-1] == '"':
+            value = value[1:-1]
+
+        result[key] = value
+'''
+DH_V1 = '''        if len(value) >= 2:
+            if value[0] == '"' and value[-1] == '"':
+                value = value[1:-1]
+
+        result[key] = value
+'''
+DH_V2 = '''        result[key] = value[1:-1] if len(value) >= 2 and value[0] == value[-1] == '"' else value
+'''
+DH_KEY_OLD = '''        if not key:
+            # =value is not valid
+            continue
+
+        if not has_value:
+            result[key] = None
+            continue
+'''
+DH_KEY_V1 = '''        if key == "":
+            # =value is not valid
+            continue
+
+        if not has_value:
+            result[key] = None
+            continue
+'''
+DH_KEY_V2 = '''        if len(key) == 0:
+            # =value is not valid
+            continue
+
+        if not has_value:
+            result[key] = None
+            continue
+'''
+
+VARIANTS = [
+    V("best-alias-first", (AC, BEST_OLD, "        if not self:\n            return None\n\n        first = self[0]\n        return first[0]\n")),
+    V("best-ifexp", (AC, BEST_OLD, "        return self[0][0] if self else None\n")),
+    V("best-len", (AC, BEST_OLD, "        if len(self) == 0:\n            return None\n\n        value, _quality = self[0]\n        return value\n")),
+    V("M:best-unguarded", (AC, BEST_OLD, "        return self[0][0]\n"), expect="R7.1"),
+    V("fallback-key-helper-flipped", (AC, FB_OLD, FB_HELPER), (AC, "class LanguageAccept(Accept):\n", PRIM_DEF)),
+    V("fallback-append-loop", (AC, FB_OLD, FB_APPEND)),
+    V("fallback-generator-inline", (AC, FB_OLD, FB_INLINE)),
+    V("fallback-list-of-generator", (AC, FB_OLD, FB_LIST_GEN)),
+    V("fallback-map", (AC, FB_OLD, FB_MAP), (AC, "class LanguageAccept(Accept):\n", PRIM_DEF)),
+    V("M:fallback-wrong-key", (AC, FB_OLD, FB_WRONG_KEY), (AC, "class LanguageAccept(Accept):\n", PRIM_DEF), expect="R7.1"),
+    V("M:fallback-no-none-test", (AC, FB_OLD, FB_NO_TEST), (AC, "class LanguageAccept(Accept):\n", PRIM_DEF), expect="R7.1"),
+    V("fallback-pairs-unpacked", (AC, FALLBACK_PAIRS_OLD, "            [(_locale_delim_re.split(tag, 1)[0], q) for tag, q in self]\n")),
+    V("offer-check-in-helper", (AC, VM_OLD, VM_HELPER_USE), (AC, "class MIMEAccept(Accept):\n", VM_HELPER_DEF)),
+    V("offer-check-flag", (AC, VM_OLD, VM_FLIP)),
+    V("q-nested-chain", (H, Q_OLD, Q_NESTED)),
+    V("q-helper-all-in-one", (H, Q_OLD, Q_HELPER_USE), (H, "def parse_accept_header(\n    value: str | None, cls: type[_TAnyAccept] | None = None\n", Q_HELPER_DEF + "def parse_accept_header(\n    value: str | None, cls: type[_TAnyAccept] | None = None\n")),
+    V("q-walrus-match-item", (H, Q_OLD, Q_WALRUS)),
+    V("M:q-prefix-match", (H, Q_OLD, Q_MATCH_PREFIX), expect="R7.1"),
+    V("unslash-bytes-ifexp", (S, UNSLASH_OLD, UNSLASH_BYTES)),
+    V("unslash-groups-len-ne-3", (S, UNSLASH_OLD, UNSLASH_GROUPS)),
+    V("unslash-len-eq-3", (S, UNSLASH_OLD, UNSLASH_LEN3)),
+    V("idna-label-helper-generator", (U, IDNA_OLD, IDNA_COMP), (U, "def _decode_idna(domain: str) -> str:\n", IDNA_COMP2_DEF), (U, "    # Decode each part separately, leaving invalid parts as punycode.\n    parts = []\n\n", "")),
+    V("idna-label-helper-str-ctor", (U, IDNA_OLD, IDNA_COMP), (U, "def _decode_idna(domain: str) -> str:\n", IDNA_COMP_DEF), (U, "    # Decode each part separately, leaving invalid parts as punycode.\n    parts = []\n\n", "")),
+    V("idna-isascii-guard", (U, IDNA_OLD_FULL_HEAD, IDNA_ISASCII)),
+    V("cookie-redecode-helper", (H, COOKIE_L1_OLD, COOKIE_L1_HELPER), (H, "def parse_cookie(\n    header: WSGIEnvironment | str | None,\n", COOKIE_L1_HELPER_DEF)),
+    V("cookie-bytes-ctor", (H, COOKIE_L1_OLD, COOKIE_L1_BYTES)),
+    V("host-startswith", (SU, HOST_OLD, HOST_STARTS)),
+    V("host-server-unpacked", (SU, HOST_UNPACK_OLD, HOST_UNPACK)),
+    V("M:host-index-before-colon-test", (SU, HOST_OLD, HOST_EMPTY_UNGUARDED), expect="R7.1"),
+    V("list-startswith", (H, LIST_OLD, LIST_V1)),
+    V("list-flag", (H, LIST_OLD, LIST_V2)),
+    V("list-early-continue-locals", (H, LIST_OLD, LIST_V3)),
+    V("list-strip-helper", (H, LIST_OLD, LIST_V4), (H, "def parse_list_header(value: str) -> list[str]:\n", LIST_V4_DEF)),
+    V("M:list-no-len", (H, LIST_OLD, LIST_BAD), expect="R7.1"),
+    V("opt-pv-slices", (H, OPT_PV_OLD, OPT_PV_V1)),
+    V("opt-pv-startswith", (H, OPT_PV_OLD, OPT_PV_V2)),
+    V("opt-pk-endswith", (H, OPT_PK_OLD, OPT_PK_V1)),
+    V("opt-pk-indexed-loop", (H, OPT_PK_OLD, OPT_PK_V2)),
+    V("opt-pk-flag-slice", (H, OPT_PK_OLD, OPT_PK_V3)),
+    V("cr-partition", (H, CR_OLD, CR_V1)),
+    V("cr-find", (H, CR_OLD, CR_V2)),
+    V("cr-len-pieces", (H, CR_OLD, CR_V3)),
+    V("cr-try", (H, CR_OLD, CR_V4)),
+    V("cr-count", (H, CR_OLD, CR_V5)),
+    V("M:cr-unguarded", (H, CR_OLD, CR_BAD), expect="R7.1"),
+    V("crc-early-return", (H, CRC_OLD, CRC_V1)),
+    V("crc-flag-ifexp", (H, CRC_OLD, CRC_V2)),
+    V("crc-result-local", (H, CRC_OLD, CRC_V3)),
+    V("M:crc-unvalidated", (H, CRC_OLD, CRC_BAD), expect="R7.1"),
+    V("etag-not-match-group-tuple", (H, ETAG_OLD, ETAG_V1)),
+    V("fs-nested-len", (FS, FS_OLD, FS_V1)),
+    V("fs-startswith", (FS, FS_OLD, FS_V2)),
+    V("dh-nested", (H, DH_OLD, DH_V1)),
+    V("dh-ifexp", (H, DH_OLD, DH_V2)),
+    V("dh-key-eq-empty", (H, DH_KEY_OLD, DH_KEY_V1)),
+    V("dh-key-len0", (H, DH_KEY_OLD, DH_KEY_V2)),
+]
+
+VARIANTS += [
+    V("M:q-walrus-unguarded-item", (H, Q_OLD, Q_WALRUS.replace("            if (q_match := _q_value_re.fullmatch(q_str)) is None:\n                continue\n\n", "            q_match = _q_value_re.fullmatch(q_str)\n")), expect="R7.1"),
+    V("M:unslash-bytes-no-length-test", (S, UNSLASH_OLD, '    escaped = m[1]\n    return bytes([int(escaped, 8)])\n'), expect="R7.1"),
+    V("M:unslash-groups-any-octal", (S, UNSLASH_OLD, UNSLASH_GROUPS), (S, r'rb"\\([0-3][0-7]{2}|.)"', r'rb"\\([0-7]{3}|.)"'), expect="R7.1"),
+    V("M:idna-isascii-guard-dropped", (U, IDNA_OLD_FULL_HEAD, "    data = domain.encode()\n"), expect="R7.1"),
+    V("M:offer-helper-checks-item", (AC, VM_OLD, VM_HELPER_USE.replace("_split_offer(value)", "_split_offer(item)")), (AC, "class MIMEAccept(Accept):\n", VM_HELPER_DEF), expect="R7.1"),
+    V("M:fallback-append-other-key", (AC, FB_OLD, FB_APPEND.replace("fallback_matches.append(_locale_delim_re.split(offer, 1)[0])", "fallback_matches.append(offer.lower())")), expect="R7.1"),
+    V("M:cr-find-wrong-sense", (H, CR_OLD, CR_V2.replace('rangedef.find("/") < 0', 'rangedef.find("/") > 0')), expect="R7.1"),
+    V("M:cr-count-other-char", (H, CR_OLD, CR_V5.replace('rangedef.count("/") == 0', 'rangedef.count("-") == 0')), expect="R7.1"),
+    V("M:crc-flag-ignored", (H, CRC_OLD, CRC_V2.replace(" if valid else None", "")), expect="R7.1"),
+    V("M:best-len-wrong-sense", (AC, BEST_OLD, "        if len(self) != 0:\n            return None\n\n        value, _quality = self[0]\n        return value\n"), expect="R7.1"),
+    V("M:opt-pk-indexed-unfiltered", (H, OPT_PK_OLD, OPT_PK_V2), (H, "            if (m := _parameter_token_value_re.match(rest)) is not None:\n                parts.append((pk, m.group()))\n", "            if (m := _parameter_token_value_re.match(rest)) is not None:\n                parts.append((pk[:0], m.group()))\n"), expect="R7.1"),
+    V("M:cookie-bytes-ctor-ascii", (H, COOKIE_L1_OLD, COOKIE_L1_BYTES.replace('bytes(cookie, "latin1")', 'bytes(cookie, "ascii")')), expect="R7.1"),
+    V("M:dh-key-len-test-dropped", (H, DH_KEY_OLD, DH_KEY_V2.replace("        if len(key) == 0:\n            # =value is not valid\n            continue\n\n", "")), expect="R7.1"),
+]
+_split(VARIANTS)
+
+# -- loop progress (R7.2), lenient decoders (R7.3), flags, remaining guard idioms
+H = "http.py"; AC = "datastructures/accept.py"; S = "sansio/http.py"; U = "urls.py"; SU = "sansio/utils.py"; WR = "wrappers/request.py"; I = "_internal.py"; F = "formparser.py"; W = "wsgi.py"; ST = "datastructures/structures.py"; Q = "sansio/request.py"
+
+ETAG_LOOP_OLD = '''    while pos < end:
+        match = _etag_re.match(value, pos)
+        if match is None:
+            break
+        is_weak, quoted, raw = match.groups()
+        if raw == "*":
+            return ds.ETags(star_tag=True)
+        elif quoted:
+            raw = quoted
+        if is_weak:
+            weak.append(raw)
+        else:
+            strong.append(raw)
+        pos = match.end()
+    return ds.ETags(strong, weak)
+'''
+ETAG_WALRUS = '''    while pos < end and (match := _etag_re.match(value, pos)) is not None:
+        is_weak, quoted, raw = match.groups()
+        if raw == "*":
+            return ds.ETags(star_tag=True)
+        tag = quoted or raw
+        (weak if is_weak else strong).append(tag)
+        pos = match.end()
+    return ds.ETags(strong, weak)
+'''
+ETAG_TRUE = '''    while True:
+        if pos >= end:
+            break
+        match = _etag_re.match(value, pos)
+        if not match:
+            break
+        is_weak, quoted, raw = match.groups()
+        if raw == "*":
+            return ds.ETags(star_tag=True)
+        elif quoted:
+            raw = quoted
+        if is_weak:
+            weak.append(raw)
+        else:
+            strong.append(raw)
+        pos = match.end()
+    return ds.ETags(strong, weak)
+'''
+ETAG_SPAN = ETAG_LOOP_OLD.replace("        pos = match.end()\n", "        pos = match.span()[1]\n")
+ETAG_END0 = ETAG_LOOP_OLD.replace("        pos = match.end()\n", "        _, pos = match.span()\n")
+ETAG_NEWPOS = ETAG_LOOP_OLD.replace("        pos = match.end()\n", "        new_pos = match.end()\n        pos = new_pos\n")
+ETAG_STUCK = ETAG_TRUE.replace("        if pos >= end:\n            break\n", "        if pos > end:\n            break\n")
+
+CHUNK_OLD = "    while True:\n        data = read(size)\n\n        if not data:\n            break\n\n        yield data\n\n    yield None\n"
+CHUNK_ITER = "    yield from iter(lambda: read(size), b\"\")\n    yield None\n"
+CHUNK_LEN = "    while True:\n        data = read(size)\n\n        if len(data) == 0:\n            break\n\n        yield data\n\n    yield None\n"
+CHUNK_FLAG = "    data = read(size)\n\n    while data:\n        yield data\n        data = read(size)\n\n    yield None\n"
+CHUNK_RETURN = "    while True:\n        data = read(size)\n\n        if data:\n            yield data\n        else:\n            yield None\n            return\n"
+CHUNK_FLAG_BAD = "    data = read(size)\n\n    while data:\n        yield data\n\n    yield None\n"
+
+READALL_OLD = '''        while not self.is_exhausted:
+            data = self.read(1024 * 64)
+
+            # Stream may return empty before a max limit is reached.
+            if not data:
+                break
+
+            out.extend(data)
+'''
+READALL_WALRUS = '''        while not self.is_exhausted and (data := self.read(1024 * 64)):
+            out.extend(data)
+'''
+READALL_NESTED = '''        while not self.is_exhausted:
+            data = self.read(1024 * 64)
+
+            # Stream may return empty before a max limit is reached.
+            if data:
+                out.extend(data)
+            else:
+                break
+'''
+READALL_LEN = READALL_OLD.replace("if not data:", "if len(data) < 1:")
+
+EVT_HEAD_OLD = "            event = parser.next_event()\n            while not isinstance(event, (Epilogue, NeedData)):\n"
+EVT_TAIL_OLD = "\n                event = parser.next_event()\n\n        return self.cls(fields), self.cls(files)"
+EVT_WALRUS = "            while not isinstance(event := parser.next_event(), (Epilogue, NeedData)):\n"
+EVT_TWO_TESTS = "            while True:\n                event = parser.next_event()\n                if isinstance(event, NeedData):\n                    break\n                if isinstance(event, Epilogue):\n                    break\n"
+EVT_TAIL_NONE = "\n        return self.cls(fields), self.cls(files)"
+
+OPT_REST_OLD = "            rest = rest[m.end() :]\n"
+OPT_REST_V1 = "            consumed = m.end()\n            rest = rest[consumed:]\n"
+OPT_REST_V2 = "            rest = rest[len(m.group()) :]\n"
+OPT_REST_V3 = "            rest = rest.removeprefix(m.group())\n"
+OPT_END_OLD = '''        if (end := rest.find(";")) == -1:
+            break
+
+        rest = rest[end + 1 :].lstrip()
+'''
+OPT_END_V1 = '''        end = rest.find(";")
+
+        if end < 0:
+            break
+
+        rest = rest[end + 1 :].lstrip()
+'''
+OPT_END_V2 = '''        _, found, rest = rest.partition(";")
+
+        if not found:
+            break
+
+        rest = rest.lstrip()
+'''
+OPT_END_V3 = '''        if ";" not in rest:
+            break
+
+        rest = rest[rest.index(";") + 1 :].lstrip()
+'''
+OPT_END_V4 = '''        if ";" not in rest:
+            break
+
+        rest = rest.split(";", 1)[1].lstrip()
+'''
+OPT_END_BAD = '''        if (end := rest.find(";")) == -1:
+            break
+
+        rest = rest[end:].lstrip()
+'''
+OPT_INNER_OLD = '''                while pos < length:
+                    if rest[pos : pos + 2] in {"\\\\\\\\", '\\\\"'}:
+                        # Consume escaped slashes and quotes.
+                        pos += 2
+'''
+
+GET_OLD = '''            try:
+                return self.load_func(value)
+            except (ValueError, TypeError):
+                return self.default  # type: ignore
+'''
+GET_V1 = '''            try:
+                loaded = self.load_func(value)
+            except (TypeError, ValueError):
+                loaded = self.default
+
+            return loaded  # type: ignore
+'''
+GET_V2 = '''            load = self.load_func
+
+            try:
+                return load(value)
+            except Exception:
+                return self.default  # type: ignore
+'''
+TCD_OLD = '''        try:
+            return type(rv)
+        except (ValueError, TypeError):
+            return default
+'''
+TCD_V1 = '''        try:
+            rv = type(rv)
+        except ValueError:
+            rv = default
+        except TypeError:
+            rv = default
+
+        return rv
+'''
+TCD_BAD = '''        try:
+            rv = type(rv)
+        except ValueError:
+            rv = default
+
+        return rv
+'''
+ARGS_OLD = '''            parse_qsl(
+                self.query_string.decode(errors="replace"),
+                keep_blank_values=True,
+                errors="werkzeug.url_quote",
+            )
+'''
+ARGS_V1 = '''            parse_qsl(
+                str(self.query_string, "utf-8", "replace"),
+                True,
+                errors="werkzeug.url_quote",
+            )
+'''
+DANCE_OLD = '    return s.encode("latin1").decode(errors="replace")\n'
+DANCE_V1 = '    raw = s.encode("latin1")\n    return raw.decode("utf-8", "replace")\n'
+DANCE_V2 = '    return str(s.encode("latin1"), errors="replace")\n'
+
+SHALLOW_OLD = '''        if self.shallow:
+            raise RuntimeError(
+                "This request was created with 'shallow=True', reading"
+                " from the input stream is disabled."
+            )
+
+        return get_input_stream(
+            self.environ, max_content_length=self.max_content_length
+        )
+'''
+SHALLOW_V1 = '''        if not self.shallow:
+            return get_input_stream(
+                self.environ, max_content_length=self.max_content_length
+            )
+
+        raise RuntimeError(
+            "This request was created with 'shallow=True', reading"
+            " from the input stream is disabled."
+        )
+'''
+SHALLOW_V2 = '''        shallow = self.shallow
+
+        if shallow:
+            raise RuntimeError(
+                "This request was created with 'shallow=True', reading"
+                " from the input stream is disabled."
+            )
+
+        return get_input_stream(
+            self.environ, max_content_length=self.max_content_length
+        )
+'''
+SHALLOW_V3 = '''        self._require_stream()
+        return get_input_stream(
+            self.environ, max_content_length=self.max_content_length
+        )
+
+    def _require_stream(self) -> None:
+        if self.shallow:
+            raise RuntimeError(
+                "This request was created with 'shallow=True', reading"
+                " from the input stream is disabled."
+            )
+'''
+SILENT_OLD = '''        try:
+            return parse_func(stream, mimetype, content_length, options)
+        except ValueError:
+            if not self.silent:
+                raise
+
+        return stream, self.cls(), self.cls()
+'''
+SILENT_V1 = '''        try:
+            return parse_func(stream, mimetype, content_length, options)
+        except ValueError:
+            if self.silent:
+                return stream, self.cls(), self.cls()
+
+            raise
+'''
+SILENT_V2 = '''        try:
+            parsed = parse_func(stream, mimetype, content_length, options)
+        except ValueError:
+            if self.silent is False:
+                raise
+
+            parsed = stream, self.cls(), self.cls()
+
+        return parsed
+'''
+CSP_OLD = '''        if " " in policy:
+            directive, value = policy.strip().split(" ", 1)
+            items.append((directive.strip(), value.strip()))
+'''
+CSP_V1 = '''        directive, space, value = policy.partition(" ")
+
+        if space:
+            items.append((directive.strip(), value.strip()))
+'''
+CSP_V2 = '''        if policy.count(" ") >= 1:
+            pieces = policy.split(" ", 1)
+            items.append((pieces[0].strip(), pieces[1].strip()))
+'''
+CSP_V3 = '''        if policy.find(" ") != -1:
+            directive, value = policy.split(" ", 1)
+            items.append((directive.strip(), value.strip()))
+'''
+CSP_V4 = '''        pieces = policy.split(None, 1)
+
+        if len(pieces) == 2:
+            directive, value = pieces
+            items.append((directive.strip(), value.strip()))
+'''
+CSP_BAD = '''        if policy:
+            directive, value = policy.split(" ", 1)
+            items.append((directive.strip(), value.strip()))
+'''
+IFR_OLD = "    return ds.IfRange(unquote_etag(value)[0])\n"
+IFR_V1 = "    etag, _weak = unquote_etag(value)\n    return ds.IfRange(etag)\n"
+IFR_V2 = "    unquoted = unquote_etag(value)\n    return ds.IfRange(unquoted[0])\n"
+MT_OLD = "        return self._parsed_content_type[0].lower()\n"
+MT_V1 = "        mimetype, _params = self._parsed_content_type\n        return mimetype.lower()\n"
+MT_V2 = "        parsed = self._parsed_content_type\n        return parsed[0].lower()\n"
+PCT_OLD = '''        if not hasattr(self, "_parsed_content_type"):
+            self._parsed_content_type = parse_options_header(
+                self.headers.get("Content-Type", "")
+            )
+'''
+PCT_V1 = '''        if hasattr(self, "_parsed_content_type"):
+            return
+
+        header = self.headers.get("Content-Type", "")
+        parsed = parse_options_header(header)
+        self._parsed_content_type = parsed
+'''
+SP_OLD = '    return host.partition(":")[0]\n'
+SP_V1 = '    name, _, _port = host.partition(":")\n    return name\n'
+SP_V2 = '    return host.split(":", 1)[0]\n'
+SP_V3 = '    colon = host.find(":")\n    return host if colon < 0 else host[:colon]\n'
+GPC_OLD = "            parameters = parse_options_header(content_type)[1]\n"
+GPC_V1 = "            _, parameters = parse_options_header(content_type)\n"
+GPC_V2 = "            parsed = parse_options_header(content_type)\n            parameters = parsed[-1]\n"
+LANG_OLD = "            [(_locale_delim_re.split(item[0], 1)[0], item[1]) for item in self]\n"
+LANG_V1 = "            [(_locale_delim_re.split(self[i][0], 1)[0], self[i][1]) for i in range(len(self))]\n"
+LANG_V2 = "            [(_locale_delim_re.split(pair[0], 1)[0],) + tuple(pair[1:]) for pair in self]\n"
+
+VARIANTS = [
+    V("etag-loop-walrus-in-header", (H, ETAG_LOOP_OLD, ETAG_WALRUS)),
+    V("etag-loop-while-true", (H, ETAG_LOOP_OLD, ETAG_TRUE)),
+    V("etag-loop-span-index", (H, ETAG_LOOP_OLD, ETAG_SPAN)),
+    V("etag-loop-span-unpack", (H, ETAG_LOOP_OLD, ETAG_END0)),
+    V("etag-loop-end-via-local", (H, ETAG_LOOP_OLD, ETAG_NEWPOS)),
+    V("M:etag-loop-bound-off-by-one", (H, ETAG_LOOP_OLD, ETAG_STUCK), expect="R7.2"),
+    V("chunk-iter-sentinel", (F, CHUNK_OLD, CHUNK_ITER)),
+    V("chunk-len-zero", (F, CHUNK_OLD, CHUNK_LEN)),
+    V("chunk-read-before-and-at-end", (F, CHUNK_OLD, CHUNK_FLAG)),
+    V("chunk-return-in-else", (F, CHUNK_OLD, CHUNK_RETURN)),
+    V("M:chunk-never-rereads", (F, CHUNK_OLD, CHUNK_FLAG_BAD), expect="R7.2"),
+    V("readall-walrus-header", (W, READALL_OLD, READALL_WALRUS)),
+    V("readall-else-break", (W, READALL_OLD, READALL_NESTED)),
+    V("readall-len-lt-1", (W, READALL_OLD, READALL_LEN)),
+    V("event-loop-walrus-header", (F, EVT_HEAD_OLD, EVT_WALRUS), (F, EVT_TAIL_OLD, EVT_TAIL_NONE)),
+    V("event-loop-two-tests", (F, EVT_HEAD_OLD, EVT_TWO_TESTS), (F, EVT_TAIL_OLD, EVT_TAIL_NONE)),
+    V("opt-rest-consumed-local", (H, OPT_REST_OLD, OPT_REST_V1)),
+    V("opt-rest-len-of-group", (H, OPT_REST_OLD, OPT_REST_V2)),
+    V("opt-rest-removeprefix", (H, OPT_REST_OLD, OPT_REST_V3)),
+    V("opt-end-plain-find", (H, OPT_END_OLD, OPT_END_V1)),
+    V("opt-end-partition", (H, OPT_END_OLD, OPT_END_V2)),
+    V("opt-end-in-index", (H, OPT_END_OLD, OPT_END_V3)),
+    V("opt-end-in-split", (H, OPT_END_OLD, OPT_END_V4)),
+    V("M:opt-end-no-advance", (H, OPT_END_OLD, OPT_END_BAD), expect="R7.2"),
+    V("get-loaded-local", (I, GET_OLD, GET_V1)),
+    V("get-load-alias-exception", (I, GET_OLD, GET_V2)),
+    V("tcd-two-handlers", (ST, TCD_OLD, TCD_V1)),
+    V("M:tcd-valueerror-only", (ST, TCD_OLD, TCD_BAD), expect="R7.3"),
+    V("args-str-ctor-positional", (Q, ARGS_OLD, ARGS_V1)),
+    V("dance-local-positional", (I, DANCE_OLD, DANCE_V1)),
+    V("dance-str-ctor", (I, DANCE_OLD, DANCE_V2)),
+    V("shallow-flipped", (WR, SHALLOW_OLD, SHALLOW_V1)),
+    V("shallow-local-alias", (WR, SHALLOW_OLD, SHALLOW_V2)),
+    V("shallow-helper-method", (WR, SHALLOW_OLD, SHALLOW_V3)),
+    V("silent-flipped", (F, SILENT_OLD, SILENT_V1)),
+    V("silent-is-false-local", (F, SILENT_OLD, SILENT_V2)),
+    V("csp-partition", (H, CSP_OLD, CSP_V1)),
+    V("csp-count-pieces", (H, CSP_OLD, CSP_V2)),
+    V("csp-find", (H, CSP_OLD, CSP_V3)),
+    V("csp-split-none-len", (H, CSP_OLD, CSP_V4)),
+    V("M:csp-truthy-only", (H, CSP_OLD, CSP_BAD), expect="R7.1"),
+    V("ifr-unpack", (H, IFR_OLD, IFR_V1)),
+    V("ifr-local", (H, IFR_OLD, IFR_V2)),
+    V("mimetype-unpack", (Q, MT_OLD, MT_V1)),
+    V("mimetype-local", (Q, MT_OLD, MT_V2)),
+    V("parsed-ct-early-return", (Q, PCT_OLD, PCT_V1)),
+    V("strip-port-unpack", (SU, SP_OLD, SP_V1)),
+    V("strip-port-split", (SU, SP_OLD, SP_V2)),
+    V("strip-port-find", (SU, SP_OLD, SP_V3)),
+    V("part-charset-unpack", (F, GPC_OLD, GPC_V1)),
+    V("part-charset-last", (F, GPC_OLD, GPC_V2)),
+    V("lang-fallback-indexed", (AC, LANG_OLD, LANG_V1)),
+    V("lang-fallback-tuple-concat", (AC, LANG_OLD, LANG_V2)),
+]
+
+VARIANTS += [
+    V("M:etag-loop-span-start", (H, ETAG_LOOP_OLD, ETAG_SPAN.replace("match.span()[1]", "match.span()[0]")), expect="R7.2"),
+    V("M:opt-end-partition-no-exit", (H, OPT_END_OLD, OPT_END_V2.replace("        if not found:\n            break\n\n", "")), expect="R7.2"),
+    V("M:event-walrus-no-need-data", (F, EVT_HEAD_OLD, EVT_WALRUS.replace("(Epilogue, NeedData)", "Epilogue")), (F, EVT_TAIL_OLD, EVT_TAIL_NONE), expect="R7.2"),
+    V("M:readall-len-never-negative", (W, READALL_OLD, READALL_OLD.replace("if not data:", "if len(data) < 0:")), expect="R7.2"),
+    V("M:chunk-else-without-return", (F, CHUNK_OLD, CHUNK_RETURN.replace("            yield None\n            return\n", "            yield None\n")), expect="R7.2"),
+    V("M:opt-rest-removeprefix-empty", (H, OPT_REST_OLD, "            rest = rest.removeprefix(\"\")\n"), (H, OPT_END_OLD, OPT_END_BAD), expect="R7.2"),
+    V("M:dance-str-ctor-strict", (I, DANCE_OLD, '    return str(s.encode("latin1"), "utf-8")\n'), expect="R7.3"),
+    V("M:get-load-alias-narrow", (I, GET_OLD, GET_V2.replace("except Exception:", "except ValueError:")), expect="R7.3"),
+    V("M:silent-flipped-wrong-way", (F, SILENT_OLD, SILENT_V1.replace("            if self.silent:\n", "            if not self.silent:\n")), expect="R7.1"),
+    V("M:shallow-helper-not-flag", (WR, SHALLOW_OLD, SHALLOW_V3.replace("        if self.shallow:\n            raise RuntimeError(", "        if self.environ.get(\"HTTP_X\"):\n            raise RuntimeError(")), expect="R7.1"),
+    V("M:strip-port-split-index-1", (SU, SP_OLD, '    return host.split(":", 1)[1]\n'), expect="R7.1"),
+    V("M:mimetype-third", (Q, MT_OLD, "        parsed = self._parsed_content_type\n        return parsed[2].lower()\n"), expect="R7.1"),
+]
+_split(VARIANTS)
+
+# -- handlers around conversions
+H = "http.py"; AU = "datastructures/auth.py"; SU = "sansio/utils.py"; I = "_internal.py"
+
+AUTH_OLD = '''            try:
+                username, _, password = base64.b64decode(rest).decode().partition(":")
+            except ValueError:
+                return None
+
+            return cls(scheme, {"username": username, "password": password})
+'''
+AUTH_V1 = '''            try:
+                raw = base64.b64decode(rest)
+            except ValueError:
+                return None
+
+            try:
+                text = raw.decode()
+            except UnicodeDecodeError:
+                return None
+
+            username, _, password = text.partition(":")
+            return cls(scheme, {"username": username, "password": password})
+'''
+AUTH_V2_DEF = '''def _decode_basic(credentials: str) -> tuple[str, str] | None:
+    try:
+        decoded = str(base64.b64decode(credentials), "utf-8")
+    except (binascii.Error, UnicodeError, ValueError):
+        return None
+
+    username, _, password = decoded.partition(":")
+    return username, password
+
+
+class Authorization:
+'''
+AUTH_V2 = '''            pair = _decode_basic(rest)
+
+            if pair is None:
+                return None
+
+            return cls(scheme, {"username": pair[0], "password": pair[1]})
+'''
+AUTH_V3 = '''            try:
+                username, _, password = base64.b64decode(rest).decode().partition(":")
+            except Exception:
+                return None
+            else:
+                return cls(scheme, {"username": username, "password": password})
+'''
+AUTH_BAD = AUTH_V1.replace("            except UnicodeDecodeError:\n                return None\n", "            except UnicodeEncodeError:\n                return None\n")
+AUTH_BAD2 = AUTH_V1.replace("            try:\n                raw = base64.b64decode(rest)\n            except ValueError:\n                return None\n", "            raw = base64.b64decode(rest)\n")
+
+DATE_OLD = '''    try:
+        dt = email.utils.parsedate_to_datetime(value)
+    except (TypeError, ValueError, OverflowError):
+        return None
+'''
+DATE_V1 = '''    try:
+        dt = email.utils.parsedate_to_datetime(value)
+    except (TypeError, ValueError):
+        return None
+    except OverflowError:
+        return None
+'''
+DATE_V2_DEF = '''def _parsedate(value: str) -> datetime | None:
+    try:
+        return email.utils.parsedate_to_datetime(value)
+    except (ArithmeticError, TypeError, ValueError):
+        return None
+
+
+def parse_date(value: str | None) -> datetime | None:
+'''
+DATE_V2 = '''    dt = _parsedate(value)
+
+    if dt is None:
+        return None
+'''
+AGE_OLD = '''    try:
+        seconds = int(value)
+    except ValueError:
+        return None
+    if seconds < 0:
+        return None
+    try:
+        return timedelta(seconds=seconds)
+    except OverflowError:
+        return None
+'''
+AGE_V1 = '''    try:
+        seconds = int(value)
+
+        if seconds < 0:
+            return None
+
+        return timedelta(seconds=seconds)
+    except (ValueError, OverflowError):
+        return None
+'''
+AGE_V2 = '''    if not value.strip().isdigit():
+        return None
+
+    try:
+        return timedelta(seconds=int(value))
+    except (OverflowError, ValueError):
+        return None
+'''
+AGE_BAD = AGE_V1.replace("    except (ValueError, OverflowError):", "    except ValueError:")
+CL_OLD = '''    try:
+        return max(0, _plain_int(http_content_length))
+    except ValueError:
+        return 0
+'''
+CL_V1 = '''    try:
+        length = _plain_int(http_content_length)
+    except ValueError:
+        length = 0
+
+    return length if length > 0 else 0
+'''
+PI_OLD = '''    value = value.strip()
+    if _plain_int_re.fullmatch(value) is None:
+        raise ValueError
+
+    return int(value)
+'''
+PI_V1 = '''    stripped = value.strip()
+
+    if not _plain_int_re.fullmatch(stripped):
+        raise ValueError(f"not a plain integer: {value!r}")
+
+    return int(stripped)
+'''
+
+VARIANTS = [
+    V("auth-two-tries", (AU, AUTH_OLD, AUTH_V1)),
+    V("auth-decode-helper-str-ctor", (AU, AUTH_OLD, AUTH_V2), (AU, "class Authorization:\n", AUTH_V2_DEF), (AU, "import base64\n", "import base64\nimport binascii\n")),
+    V("auth-except-exception-else", (AU, AUTH_OLD, AUTH_V3)),
+    V("M:auth-two-tries-wrong-handler", (AU, AUTH_OLD, AUTH_BAD), expect="R7.1"),
+    V("M:auth-b64-outside-try", (AU, AUTH_OLD, AUTH_BAD2), expect="R7.1"),
+    V("date-two-handlers", (H, DATE_OLD, DATE_V1)),
+    V("date-helper-arithmetic-error", (H, DATE_OLD, DATE_V2), (H, "def parse_date(value: str | None) -> datetime | None:\n", DATE_V2_DEF)),
+    V("age-one-try", (H, AGE_OLD, AGE_V1)),
+    V("age-isdigit", (H, AGE_OLD, AGE_V2)),
+    V("M:age-one-try-narrow", (H, AGE_OLD, AGE_BAD), expect="R7.1"),
+    V("content-length-local", (SU, CL_OLD, CL_V1)),
+    V("plain-int-renamed-message", (I, PI_OLD, PI_V1)),
+]
+_split(VARIANTS)
